@@ -4,6 +4,7 @@
 // Files are written into a private scratch directory created at start-up and removed case by case.
 #include "verif.hpp"
 
+#include <cerrno>
 #include <dirent.h>
 #include <fstream>
 #include <sys/stat.h>
@@ -32,9 +33,19 @@ static std::string scratch_file(uint64_t index, const char* tag)
 static double gen_value(Rng& rng, double unit)
 {
 	double q;	// the number that will be printed
-	switch(rng.irange(0, 7))
+	switch(rng.irange(0, 8))
 	{
 		case 0: q = 0.0; break;
+		case 8: {
+			// exact powers of two and their neighbours, in particular the limits of the integer types (seeded change C20-r6m3 wrote integer-valued
+			// entries through long long: +2^63 came back with the opposite sign)
+			static const int E[] = {15, 16, 31, 32, 52, 53, 62, 63, 64, 127, 128, -1, -10};
+			int e = rng.coin(0.7) ? E[rng.below(13)] : rng.irange(-60, 200);
+			q	  = rng.sign() * std::ldexp(1.0, e);
+			if(rng.coin(0.25))
+				q = rng.coin() ? std::nextafter(q, 0.0) : std::nextafter(q, q * 2);
+			break;
+		}
 		case 1: q = (double) rng.irange(-1000, 1000); break;
 		case 2: q = rng.irange(-99999, 99999) / 100.0; break;
 		case 3: q = rng.mag(1e-290, 1e290); break;
@@ -101,6 +112,29 @@ static void maybe_preexisting(Rng& rng, const std::string& path)
 	}
 }
 
+// What ran in the process before an import: libm calls that overflow or underflow leave errno at ERANGE (or EDOM), and nothing resets it.
+// The import must not depend on it (seeded change C20-r6m2 parsed with strtod and tested errno without clearing it first).
+static void leave_errno(Rng& rng)
+{
+	int k = rng.irange(0, 5);
+	if(k == 0)
+	{
+		volatile double big = 1e4;
+		volatile double u	= std::exp(-big);	// underflow: ERANGE
+		(void) u;
+		if(errno != ERANGE)
+			errno = ERANGE;
+	}
+	else if(k == 1)
+	{
+		volatile double neg = -1.0;
+		volatile double u	= std::sqrt(neg);	// EDOM
+		(void) u;
+	}
+	else if(k == 2)
+		errno = 0;
+}
+
 static void case_table(Rng& rng, uint64_t index)
 {
 	int rows = (index % 7 == 0) ? 1 : rng.irange(1, rng.coin(0.1) ? 200 : 30), cols = 1 + (int) (index % 12);
@@ -123,6 +157,7 @@ static void case_table(Rng& rng, uint64_t index)
 	std::string path = scratch_file(index, "table");
 	maybe_preexisting(rng, path);
 	Export_Table(path, data, dims, header);
+	leave_errno(rng);
 	std::vector<std::vector<double>> back = Import_Table(path, dims, (unsigned) hl);
 	unlink(path.c_str());
 	bool shape = (int) back.size() == rows;
@@ -158,6 +193,7 @@ static void case_list(Rng& rng, uint64_t index)
 	std::string path = scratch_file(index, "list");
 	maybe_preexisting(rng, path);
 	Export_List(path, data, unit, header);
+	leave_errno(rng);
 	std::vector<double> back = Import_List(path, unit, (unsigned) hl);
 	unlink(path.c_str());
 	require("list-read-back-has-the-same-length", back.size() == data.size(), [&] { return J().i("read", (long long) back.size()); });
